@@ -231,7 +231,7 @@ MSGS = [b'{"some":"msg"}', b"foo", b"x", b"set foo=bar", b'{"stop":"motor"}', b"
         b"\xff\xfe", b"a\nb", b"0", b"'", b",", b"]]", b"x[1s]"]
 PATS = [b"foo", b"a", rb'\"is\"\s*:\s*\"running\"', rb"^\s*{", rb"^\s*\{", b'"hb"', b"", b"a(", b"[", b"*", b"a|b", b"x>y", b">", b"a,b",
         rb"\'foo\'", b"(?!x)", b"\xff", b"\xc3\xa9", b"[0-9]+", b"^$", b".*", b"(a)(b)", b"a{2,3}", b"a{3,2}", b"\\", b"(?i)abc", b"a b", b" a", b"a "]
-COUNTS = [b"5", b"1", b"0", b"", b"007", b"10", b"9223372036854775807", b"9223372036854775808", b"99999999999999999999", b"-1", b"+5",
+COUNTS = [b"5", b"1", b"0", b"", b"007", b"10", b"08", b"09", b"010", b"0130", b"00", b"0x10", b"0b11", b"0o7", b"1_000", b"9223372036854775807", b"9223372036854775808", b"99999999999999999999", b"-1", b"+5",
           b"1x", b"0000000000000000000000005", b"1 2"]
 TIMEOUTS = [b"10s", b"1m", b"1s", b"5ms", b"100ms", b"1h30m", b"1.5s", b"0", b"0s", b"10", b"", b"5us", b"5x", b"1", b"s", b".5s",
             b"10ns", b"9223372036854775807ns", b"9223372036854775808ns", b"3h2m1s", b"1.s", b"mm", b"1h1"]
